@@ -1,8 +1,76 @@
-(* C08 - work in progress: the monitor is evaluated on real traces; theorems follow. *)
-From Coercion.Base Require Import Plan.
-From Coercion.Engine Require Import Shape Event Accept.
-From Coercion.C08 Require Import MonC08.
+(* C08 - Persist-before-act: durable state leads side effects; no visible regress.
 
-Theorem c08_empty_trace_partial : forall sh, mon_persist (sh, []) = true.
-Proof. intro sh. reflexivity. Qed.
-Print Assumptions c08_empty_trace_partial.
+   run sh init tr = Some s     : the observable automaton of the engine (coq/engine/Auto.v) accepts the trace tr of a
+                                 plan of shape sh (every real trace is checked for that, and against the monitors, on
+                                 every run of ./check C08).
+   mon_persist, mon_reads      : coq/c08/MonC08.v (the formal statement of the property over a trace).
+   image_after tr              : the durable image after tr = fold of its EvWrite events.
+
+   All theorems: every shape, every trace, every interleaving; no bounds. *)
+From Coercion.Base Require Import Plan.
+From Coercion.Engine Require Import Shape Event Action ChecksRun Seq Block Final PlanSM Auto Accept.
+From Coercion.C08 Require Import MonC08 C08Thm.
+
+(* clauses (a) Start only when durably (Running, n); (b) every attempt's result durable before the next attempt /
+   the next action of the sequence / the terminal write; (c) release only after the plan's terminal write, with the
+   durable image, nothing changes afterwards; (e) no write moves a block / sequence / sequence action out of a
+   durable Completed / Failed - for every accepted trace (prefix-closed form) *)
+Theorem c08_persist_before_act :
+  forall (sh : shape) (tr : list event) (s : st),
+    shape_wf sh = true -> run sh init tr = Some s -> mon_persist (sh, tr) = true.
+Proof. exact persist_before_act. Qed.
+Print Assumptions c08_persist_before_act.
+
+(* clause (a), read off: whenever a plugin is invoked, its action is durably Running at that moment *)
+Theorem c08_start_durably_running :
+  forall (sh : shape) (tr : list event) (a : aref) (s : st),
+    shape_wf sh = true -> run sh init (tr ++ [EvStart a]) = Some s ->
+    c_st (iget (image_after tr) (OAct a)) = Running.
+Proof. exact start_durably_running. Qed.
+Print Assumptions c08_start_durably_running.
+
+(* clause (c), read off: whenever Wait returns, the plan's terminal state is durable and what Wait returned is the
+   durable image of every object *)
+Theorem c08_release_after_terminal_write :
+  forall (sh : shape) (tr : list event) (fin : image) (s : st),
+    shape_wf sh = true -> run sh init (tr ++ [EvRelease fin]) = Some s ->
+    is_terminal (ist (image_after tr) OPlan) = true /\
+    exists r, image_agrees (all_objs sh) (image_after tr) r fin = true.
+Proof. exact release_after_terminal_write. Qed.
+Print Assumptions c08_release_after_terminal_write.
+
+(* no step of the automaton moves a block / sequence / sequence action out of a terminal status in the durable image *)
+Theorem image_monotone :
+  forall (sh : shape) (tr : list event) (s : st) (e : event) (s' : st) (o : obj),
+    shape_wf sh = true -> run sh init tr = Some s -> step sh s e = Some s' ->
+    mono_obj o = true -> is_cf (ist (s_img s) o) = true ->
+    ist (s_img s') o = ist (s_img s) o.
+Proof. exact image_monotone_step. Qed.
+Print Assumptions image_monotone.
+
+(* ... hence along every accepted trace, in terms of the fold of the writes alone *)
+Theorem image_monotone_trace :
+  forall (sh : shape) (t1 t2 : list event) (s : st) (o : obj),
+    shape_wf sh = true -> run sh init (t1 ++ t2) = Some s ->
+    mono_obj o = true -> is_cf (ist (image_after t1) o) = true ->
+    ist (image_after (t1 ++ t2)) o = ist (image_after t1) o.
+Proof. exact image_monotone_run. Qed.
+Print Assumptions image_monotone_trace.
+
+(* clause (d): a polling reader never sees a block / sequence / sequence action leave Completed / Failed - under
+   the EXPLICIT hypothesis about reads (the automaton does not constrain EvRead before the release): what the k-th
+   snapshot (polls and the released plan, in trace order) shows of object o is the durable status of o after some
+   prefix wit k o of the trace, and these prefixes never go backwards from one snapshot to the next.  (Sound for the
+   harness: polls are sequential, the writes of one object are sequential, a write is logged after it returned;
+   MonC08.mon_explained checks on every real trace that such prefixes exist, with at most one not-yet-logged write
+   of look-ahead per object; mon_reads itself is evaluated on every real trace.) *)
+Theorem c08_no_visible_regress :
+  forall (sh : shape) (tr : list event) (s : st),
+    shape_wf sh = true -> run sh init tr = Some s ->
+    (exists wit : nat -> obj -> nat,
+       (forall k k' o, k <= k' -> wit k o <= wit k' o) /\
+       (forall k snap o, nth_error (snaps tr) k = Some snap -> In o (mono_objs sh) ->
+          snap_st snap o = Some (ist (image_after (firstn (wit k o) tr)) o))) ->
+    mon_reads (sh, tr) = true.
+Proof. exact no_visible_regress. Qed.
+Print Assumptions c08_no_visible_regress.
